@@ -9,6 +9,7 @@
 (* Property-level clauses (a failure is a C01 violation):                   *)
 (*   C01.outcome : the call ended with a message or an error               *)
 (*   C01.time    : within the (generous) wall-clock budget                  *)
+(*   C01.memory  : peak heap use within 64 bytes per datagram byte + 8 KB    *)
 (*   C01.namelen : no produced name is longer than the datagram            *)
 (*   C01.inside  : a returned message is what Wire!ParseMsg reads from the  *)
 (*                 bytes of the datagram (same records, same sections)      *)
@@ -20,6 +21,11 @@ EXTENDS DecodeMech, CrateView, TLC, TLCExt, Json, IOUtils
 
 Rec == ndJsonDeserialize(IOEnv.TRACE)
 TimeBudgetMs == 1500
+(* peak heap use of the call (decoder plus the view the facade builds of its result), as counted by the harness's         *)
+(* allocator: observed at most 22 bytes per byte of datagram plus 1 KB over 370 000 datagrams; the budget is three times  *)
+(* that - what matters is that it follows the size of the datagram and not a count the datagram claims in its header      *)
+MemPerByte == 64
+MemBase == 8192
 
 VARIABLES l, viol, drift
 vars == <<l, viol, drift>>
@@ -50,6 +56,7 @@ Decode ==
   /\ Ev.e = "decode"
   /\ viol' = viol \cup Chk("C01.outcome", Ev.out \in {"ok", "err"})
                   \cup Chk("C01.time", Ev.ms <= TimeBudgetMs)
+                  \cup Chk("C01.memory", ("mem" \in DOMAIN Ev) => Ev.mem <= MemPerByte * Len(Ev.b) + MemBase)
                   \cup (IF Ev.out = "ok"
                         THEN Chk("C01.namelen", MaxNameLen(Ev) <= Len(Ev.b))
                              \cup Chk("C01.inside", Inside(Ev))
